@@ -58,6 +58,15 @@ def main : IO Unit := do
     chk2 "zoom record: fresh record (start, end, min, max, bases)" (fun st v => toString [Gen.wzs_new_start 0 v 0 0 st, Gen.wzs_new_end 0 v 0 0 st, Gen.wzs_new_min 0 v 0 0 st, Gen.wzs_new_max 0 v 0 0 st, Gen.wzs_new_bases 0 v 0 0 st, Gen.bzs2_new_start 0 v 0 0 st, Gen.bzs2_new_end 0 v 0 0 st, Gen.bzs2_new_min 0 v 0 0 st, Gen.bzs2_new_max 0 v 0 0 st, Gen.bzs2_new_bases 0 v 0 0 st]) (fun st v => toString ([st, st, v, v, 0, st, st, v, v, 0] : List Int)) "add_start, value",
     chk2 "staging buffer: reported length (in memory; nothing written)" (fun k _ => toString [Gen.tb_len_inmem (4294967295 + k), Gen.tb_len_inmem k, Gen.tb_len_notstarted]) (fun k _ => toString [4294967295 + k, k, 0]) "staged bytes − (2^32 − 1), -",
     chk2 "coverage sweeps: bound of the final drain (summary, zoom)" (fun l _ => toString [Gen.bs_final_bound l, Gen.bzs_final_bound l]) (fun _ _ => toString [4294967295, 4294967295]) "chromosome length, -",
+    chk2 "index / bedGraph item decoders: bytes each field is assembled from (leaf, non-leaf, bedGraph item)" (fun _ _ => toString (Gen.bf_leaf, Gen.bf_nonleaf, Gen.bf_bedgraph_item)) (fun _ _ =>
+      let lay (fs : List (String × Nat)) : List (String × String × List Nat) :=
+        let rec go : Nat → List (String × Nat) → List (String × List Nat)
+          | _, [] => []
+          | a, (nm, w) :: r => (nm, (List.range w).map (· + a)) :: go (a + w) r
+        (go 0 fs).map (fun (nm, ix) => (nm, "be", ix)) ++ (go 0 fs).map (fun (nm, ix) => (nm, "le", ix))
+      toString (lay [("start_chrom_ix", 4), ("start_base", 4), ("end_chrom_ix", 4), ("end_base", 4), ("data_offset", 8), ("data_size", 8)],
+                lay [("start_chrom_ix", 4), ("start_base", 4), ("end_chrom_ix", 4), ("end_base", 4), ("data_offset", 8)],
+                lay [("chrom_start", 4), ("chrom_end", 4), ("value", 4)])) "-, -",
     chk2 "bigWig value length" (fun e st => n (Gen.wig_len e st)) (fun e st => n (e - st)) "end, start",
     chk2 "section cut (bigWig), not the last item" (fun k i => s (Gen.wig_cut false k i)) (fun k i => s (decide (k ≥ min i 65535))) "items, items_per_slot",
     chk2 "section cut (bigBed), not the last item" (fun k i => s (Gen.bed_cut false k i)) (fun k i => s (decide (k ≥ min i 65535))) "items, items_per_slot",
